@@ -1,7 +1,7 @@
 #!/bin/sh
 # offline build of the framework from files on disk only
 set -e
-cd /verif
+cd "$(dirname "$0")"
 mkdir -p .work evidence replays lean/SV/Generated
 export GOFLAGS=-mod=mod GOPROXY=off GOSUMDB=off GOTOOLCHAIN=local GOWORK=off
 cp /repo/go.sum harness/go.sum
